@@ -1,4 +1,5 @@
 import Proofs.BatchLemmas
+import Pegnet.Generated.Facts
 import Proofs.Auth
 /-
   C05 — Spend authorization.
@@ -142,6 +143,16 @@ example : Debitable xP xDB xBlock "alice" :=
 
 end Pegnet.C05
 
+namespace Pegnet.C05
+open Pegnet
+/-- the shipped schedule: "V4OPRUpdate indicates the activation of additional currencies and ecdsa
+    keys" (config/activations.go) — the height from which `fat2` accepts RCD-e keys, regenerated from
+    fat/fat2/activations.go, is the V4 OPR update regenerated from config/activations.go -/
+theorem rcde_keys_activate_with_v4 :
+    Generated.activations.rcde = Generated.activations.v4 ∧ Generated.activationsComplete = true := by
+  decide
+end Pegnet.C05
+
 #print axioms Pegnet.C05.invalid_entry_inert
 #print axioms Pegnet.C05.held_revalidated
 #print axioms Pegnet.C05.key_type_by_height
@@ -152,3 +163,4 @@ end Pegnet.C05
 #print axioms Pegnet.C05.debit_needs_signature
 #print axioms Pegnet.C05.chain_debit_needs_signature
 #print axioms Pegnet.C05.debitable_batch_is_signed
+#print axioms Pegnet.C05.rcde_keys_activate_with_v4
